@@ -35,6 +35,27 @@ CHECKS = {
              'labels/colours not compared. Private reads: CommandStack._command_stack/_undo_stack lengths.',
         technique='TLA+ spec + TLC; behaviour replay into real Session/CommandStack (spec->code conformance)',
         design='7/C13'),
+    'C03': dict(
+        text='Links.tla computes by TLC, for every dataset and component, the length of a shortest chain of registered links (and '
+             'inverses) and the links that may end it; TLC checks soundness/monotonicity of that requirement and enumerates '
+             'histories of add/remove link, component and dataset, set_links and delayed link-manager updates; each runs on a real '
+             'DataCollection: reachability (externally derivable components), values (composition of the link functions along an '
+             'admissible shortest chain, by scalar arithmetic), masks of inequality selections, IncompatibleAttribute elsewhere, '
+             'and absence of dangling references are compared after every step.',
+        note='Bounded: 3 datasets x 2 components, menu of 8 affine links (one-way, two-way, 2-input, identity, cycle, two routes), '
+             'depth 5 exhaustive + random walks. Arbitrary user link functions are not explored.',
+        technique='TLA+ spec + TLC; behaviour replay into real DataCollection/LinkManager',
+        design='7/C03'),
+    'C11': dict(
+        text='Joins.tla computes by TLC the set of admissible masks of every dataset for a selection living on a source dataset '
+             '(key membership propagated along every simple join path; empty set = incompatible), for the four join shapes, chains, '
+             'stars and cycles over 4 datasets; TLC checks the requirement and enumerates join/selection histories, which run on '
+             'real Data objects (Data.join_on_key, JoinLink) under five storage variants of the key columns; masks (also under '
+             'views) must be in the admissible set or raise IncompatibleAttribute.',
+        note='Bounded: 4 datasets x 3 rows, 3 abstract keys, 8 joins in the menu, depth 5 exhaustive + random walks. Key storage: '
+             'int widths, float, half-integers, string widths. NaN / -0.0 keys not explored.',
+        technique='TLA+ spec + TLC; behaviour replay into real Data joins under storage variants',
+        design='7/C11'),
 }
 
 NOT_APPLICABLE = {}
